@@ -88,6 +88,18 @@ Theorem C14_pwg_general_correct : forall a b p,
 Proof. exact c14_pwg_general_correct. Qed.
 Print Assumptions C14_pwg_general_correct.
 
+(* --- ... and for every arc lying on one meridian half (both endpoints at the same longitude, no pole): the
+       same-longitude branch (latitude interval) decides exactly the specification --- *)
+Theorem C14_pwg_meridian_correct : forall a b p,
+  c14_lon_eq (c14_lon_f a) (c14_lon_f b) = true ->
+  c14_cross a b <> (0, 0, 0) ->
+  c14_is_pole a = false -> c14_is_pole b = false -> c14_is_pole p = false ->
+  (c14_x a <> 0 \/ c14_y a <> 0) -> (c14_x b <> 0 \/ c14_y b <> 0) -> (c14_x p <> 0 \/ c14_y p <> 0) ->
+  (c14_triple a b p = 0 \/ c14_plane_ok a b p = false) ->
+  c14_pwg a b p = Some (c14_on_arc a b p).
+Proof. exact c14_pwg_meridian_correct. Qed.
+Print Assumptions C14_pwg_meridian_correct.
+
 (* --- ... but not in the pole branch: the faithful model violates the property there (defects of /repo,
        reproduced on the real code by the harness) --- *)
 Theorem C14_pwg_through_pole_refuted :
